@@ -622,19 +622,26 @@ def _run_param(case):
         named = [x for x in named if x and x[0] == old_kw]
         new_kw = named[0][1] if named else mapping[old_kw]
         kw_new = dict(v['kwargs'])
+        check_effect = False
+        ps = {}
         if new_kw:
             kw_new[new_kw] = v['value']
             rec.c('forwarded_keyword_renamed' if fwd else 'keyword_renamed')
             # the keyword the warning recommends must be one the function has
             try:
                 ps = inspect.signature(inspect.unwrap(wrapper)).parameters
+                explicit = {k for k, p in ps.items() if p.kind not in (p.VAR_KEYWORD, p.VAR_POSITIONAL)}
                 open_kw = any(p.kind == p.VAR_KEYWORD for p in ps.values())
-                if new_kw not in ps and not open_kw:
+                if new_kw not in explicit and not open_kw:
                     rec.violation(f'C20/keyword-named-in-warning-is-not-a-parameter/{short}',
                                   f'{trip}: the warning says "use {new_kw}=..." but {func}{tuple(ps)} has no such parameter',
                                   {'keyword': trip, 'new_keyword_named_in_warning': new_kw, 'parameters': list(ps)})
+                    rec.violation(f'C20/keyword-table-points-to-unknown-parameter/{_short(owner, case["module"])}.{func}:{old_kw}->{new_kw}',
+                                  f'{trip}: the renamed-keyword table sends {old_kw} to {new_kw}, which {func}{tuple(ps)} does not have',
+                                  {'keyword': trip, 'table': mapping, 'parameters': list(ps)})
                 else:
-                    rec.c('recommended_keyword_is_a_parameter' if new_kw in ps else 'recommended_keyword_goes_to_var_keywords')
+                    rec.c('recommended_keyword_is_a_parameter' if new_kw in explicit else 'recommended_keyword_goes_to_var_keywords')
+                    check_effect = new_kw not in explicit
             except (TypeError, ValueError):
                 pass
         else:
@@ -643,6 +650,28 @@ def _run_param(case):
         if 'returned' not in n:
             rec.inconc(f'{trip}: observation with the new keyword failed: {str(n)[:200]}')
             continue
+        # The value driven under both spellings is one that differs from the default, so leaving the keyword out must show.
+        # (a) a current spelling that is not a declared parameter but only falls into **kwargs exists only if the function
+        #     does something with it: no observable difference to the call without it = the table points to a keyword the
+        #     function does not have (it is swallowed); (b) for declared parameters the same observation is a coverage
+        #     counter: a value without effect on this receiver decides nothing about the renaming.
+        if new_kw and (check_effect or (i == 0 and (fwd or recvq in (None, owner) or (recvq or '').rsplit('.', 1)[-1] in ('Plus', 'MonteCarlo')))):
+            z = _obs(rec, dict(base, kwargs=dict(v['kwargs'])), f'p{i}_omitted', [code])
+            if 'returned' in z:
+                rec.ev()
+                eff = [k for k, _ in ob.compare(n, z)]
+                if eff:
+                    rec.c('keyword_value_changes_behaviour_relative_to_default')
+                    rec.c('keyword_effect_seen::' + f'{owner or case["module"]}.{func}:{old_kw}')
+                    if check_effect:
+                        rec.c('keyword_consumed_through_var_keywords_has_effect')
+                elif check_effect:
+                    rec.violation(f'C20/keyword-table-points-to-unknown-parameter/{_short(owner, case["module"])}.{func}:{old_kw}->{new_kw}',
+                                  f'{trip}: the table / warning send {old_kw} to {new_kw}; {func} declares no such parameter and giving '
+                                  f'{new_kw}={v["value"]!r} (a non-default value) changes nothing compared with leaving it out: the keyword is swallowed by **kwargs',
+                                  {'keyword': trip, 'table': mapping, 'parameters': list(ps), 'with_keyword': _trim(n), 'without': _trim(z)})
+                else:
+                    rec.c('keyword_value_without_effect_on_this_receiver')
         rec.ev()
         compared += 1
         rec.key([trip, v['label'], _fixture_id(dict(v, args=list(v['args']) + [v['value']]))])
@@ -782,6 +811,13 @@ def finalize(cov, tier):
     lonely = sorted(k for k in {t.split('@')[0] for t in trips} if per_kw.get(k, 0) == 0)
     if lonely:
         out.append(f'renamed keywords never compared on any receiver: {lonely}')
+    kws = {f'{p["owner"] or p["module"]}.{p["name"]}:{k}' for p in d['params'] for k, nk in p['mapping'].items() if nk}
+    seen_eff = {k.split('::', 1)[1] for k in cov if k.startswith('keyword_effect_seen::')}
+    noeff = sorted(kws - seen_eff)
+    cov['renamed_keywords_whose_value_showed_an_effect'] = len(kws & seen_eff)
+    cov['renamed_keywords_whose_value_never_showed_an_effect'] = len(noeff)
+    if noeff:
+        out.append(f'renamed keywords driven only with values that changed nothing relative to the default: {noeff}')
     # forwarding callers
     fw = ob.forwarders()
     ftr = {f'{f["owner"] or f["module"]}.{f["name"]}:{k}@via:{f["via_owner"] or f["via_module"]}.{f["via_name"]}' for f in fw for k in f['mapping']}
